@@ -47,7 +47,7 @@ func verifPoint(kind int, obj any, vm *VirtualMachine) {
 }
 
 // VerifHalted reports whether the halt flag is set.
-func (vm *VirtualMachine) VerifHalted() bool { return atomic.LoadInt32(&vm.halt) == 1 }
+func (vm *VirtualMachine) VerifHalted() bool { return atomic.LoadInt32(vm.halt) == 1 }
 
 // VerifSP returns the stack pointer (index of the top of stack, -1 when empty).
 func (vm *VirtualMachine) VerifSP() int { return vm.sp }
